@@ -832,6 +832,18 @@ class SymStr:
         return "SymStr(" + "".join(p if isinstance(p, str) else ("{dec}" if p[0] == "dec" else "{chr}") for p in self.parts) + ")"
 
 
+class AnyStr:
+    """the universal string: stands for *every* str; only usable as the subject of a regular expression (see interp.RegexProbe)"""
+
+    def __format__(self, spec):
+        return "<any str>"
+
+    def __getattr__(self, name):
+        from .engine import Unsupported
+
+        raise Unsupported(f"str.{name} on the universal string")
+
+
 def split_ints(s, sep):
     """[int(x) for x in s.split(sep)] for str or SymStr"""
     if isinstance(s, str):
